@@ -238,6 +238,7 @@ class Interp(Engine):
             # exception purposes by evaluating operands under the accumulated guard
             terms = []
             saved = len(self.path.pc)
+            guards = []
             try:
                 for v in node.values:
                     t = self.truthy(self.eval(v, env, TRUTH))
@@ -247,9 +248,20 @@ class Interp(Engine):
                             break
                         continue
                     terms.append(t)
-                    self.path.pc.append(t if is_and else z3.Not(t))   # right operands evaluated only if ...
+                    g = t if is_and else z3.Not(t)
+                    guards.append(g)
+                    self.path.pc.append(g)   # right operands evaluated only if ...
             finally:
+                # the guards go; facts assumed while evaluating an operand (callee postconditions, witnesses) stay,
+                # conditional on the operands before it having let evaluation through
+                added = self.path.pc[saved:]
                 del self.path.pc[saved:]
+                seen = []
+                for c in added:
+                    if any(c is g for g in guards):
+                        seen.append(c)
+                    else:
+                        self.path.pc.append(z3.Implies(z3.And(*seen), c) if seen else c)
             zs = [_b(t) for t in terms]
             if not zs:
                 return is_and
@@ -483,6 +495,13 @@ class Interp(Engine):
             return SBool(a.t == b.t)
         if isinstance(a, SBytes) or isinstance(b, SBytes):
             return SBool(self.as_bytes(a) == self.as_bytes(b))
+        if hasattr(a, 'isnone') and hasattr(a, 't') and a.t.sort() == StrSort or hasattr(b, 'isnone') and hasattr(b, 't') and b.t.sort() == StrSort:
+            # str-or-None compared with a str (or another str-or-None)
+            an = getattr(a, 'isnone', z3.BoolVal(False))
+            bn = getattr(b, 'isnone', z3.BoolVal(False))
+            at = a.t if hasattr(a, 't') else self.as_str(a)
+            bt = b.t if hasattr(b, 't') else self.as_str(b)
+            return SBool(z3.Or(z3.And(an, bn), z3.And(z3.Not(an), z3.Not(bn), at == bt)))
         if isinstance(a, SStr) or isinstance(b, SStr):
             return SBool(self.as_str(a) == self.as_str(b))
         if isinstance(a, SOpt) or isinstance(b, SOpt):
@@ -641,6 +660,11 @@ class Interp(Engine):
                 if self.decide(i == k):
                     return obj[k]
             raise PathEnd()
+        if isinstance(obj, SFilter) and idx == 0:
+            if self.decide(z3.Not(obj.nonempty)):
+                self.oblige('noexc.IndexError', False, 'noexc', self.cur_line)
+                raise PyRaise(ExcClass('IndexError'))
+            return obj.first(self)
         hook = self.hooks.get('index')
         if hook:
             r = hook(self, obj, idx)
@@ -663,6 +687,9 @@ class Interp(Engine):
             lo_t = self.clamp(lo, n, 0)
             hi_t = self.clamp(hi, n, n)
             ln = z3.If(hi_t > lo_t, hi_t - lo_t, z3.IntVal(0))
+            lo_s = z3.simplify(lo_t)
+            if z3.is_int_value(lo_s) and lo_s.as_long() == 0:
+                return SSeq(ln, lambda i: obj.elem(i), obj.name + '[:b]')      # keeps index terms free of arithmetic (triggers)
             return SSeq(ln, lambda i, lo_t=lo_t: obj.elem(lo_t + i), obj.name + '[..]')
         hook = self.hooks.get('slice')
         if hook:
@@ -685,6 +712,21 @@ class Interp(Engine):
 
     # comprehensions over concrete iterables are unrolled; over symbolic sequences see builtins (folds)
     def e_ListComp(self, node, env, ctx):
+        if len(node.generators) == 1 and node.generators[0].ifs and isinstance(node.elt, ast.Name) \
+                and isinstance(node.generators[0].target, ast.Name) and node.elt.id == node.generators[0].target.id:
+            # [x for x in <sequence of symbolic length> if p(x)]: a filter; supported observations: truthiness, [0]
+            g = node.generators[0]
+            it = self.eval(g.iter, env)
+            if isinstance(it, SSeq) and not z3.is_int_value(z3.simplify(it.length)):
+                def pred(i):
+                    e2 = Env(env)
+                    self.assign_target(g.target, it.elem(i), e2)
+                    self.pure += 1
+                    try:
+                        return z3.And(*[_b(self.truthy(self.eval(c, e2, TRUTH))) for c in g.ifs])
+                    finally:
+                        self.pure -= 1
+                return SFilter(self, it, pred)
         if len(node.generators) == 1 and not node.generators[0].ifs:
             g = node.generators[0]
             it = self.eval(g.iter, env)
@@ -1236,6 +1278,31 @@ def _yield_owner(fnode, ynode):
                 return True
         return False
     return visit(fnode)
+
+
+class SFilter(Sym):
+    """[x for x in seq if p(x)] over a sequence of symbolic length: non-empty iff some element satisfies p;
+    [0] is the first such element"""
+
+    def __init__(self, vm, seq, pred):
+        self.seq, self.pred = seq, pred
+        j = vm.fresh('j')
+        self.nonempty = z3.Exists([j], z3.And(0 <= j, j < seq.length, pred(j)))
+
+    def sym_truthy(self, vm):
+        return self.nonempty
+
+    def first(self, vm):
+        if getattr(self, '_first', None) is not None and self._first[0] is vm.path:
+            return self.seq.elem(self._first[1])          # the same list object: the same first element
+        w, j = vm.fresh('first'), vm.fresh('j')
+        self._first = (vm.path, w)
+        n = self.seq.length
+        ej = self.seq.elem(j)
+        pats = [ej.t] if hasattr(ej, 't') and z3.is_app(ej.t) and ej.t.num_args() > 0 else []
+        vm.assume(z3.And(0 <= w, w < n, self.pred(w), z3.ForAll([j], z3.Implies(z3.And(0 <= j, j < w), z3.Not(self.pred(j))),
+                                                               patterns=pats)))
+        return self.seq.elem(w)
 
 
 class ExcInstance(object):
